@@ -225,7 +225,67 @@ func (u *Universe) loadSpecTables(specDir string) (*SpecTables, string, error) {
 			}
 		}
 	}
+	sb.WriteString(tokenTheory(&st))
 	return &st, sb.String(), nil
+}
+
+// tokenTheory: the token view of a vector string, from the contract of strings.Split (A1), and the declarative
+// well-formedness predicates of C07/C08 in the properties' own words.
+func tokenTheory(st *SpecTables) string {
+	var sb strings.Builder
+	sb.WriteString(`; ---- token theory (generated): pieces of strings.Split(v, "/") and strings.Split(t, ":") ----
+(define-fun part0 ((t String)) String (select (split_colon t) 0))
+(define-fun part1 ((t String)) String (select (split_colon t) 1))
+(define-fun shape ((t String)) Bool (and (= (nsplit_colon t) 2) (not (= (str.len (part0 t)) 0)) (not (= (str.len (part1 t)) 0))))
+(define-fun nm ((t String)) String (part0 t))
+(define-fun vl ((t String)) String (part1 t))
+(define-fun tok ((v String) (j Int)) String (select (split_slash v) j))
+(define-fun ntok ((v String)) Int (nsplit_slash v))
+(define-fun prefix_shape ((t String)) Bool (and (= (nsplit_colon t) 2) (= (part0 t) "CVSS")))
+(define-fun prefix_ok_v3 ((t String)) Bool (and (prefix_shape t) (not (= (parse_v3_VER (part1 t)) 0))))
+`)
+	for _, fam := range []struct {
+		v string
+		f *SpecFamily
+	}{{"v3", st.V3}, {"v2", st.V2}} {
+		v, f := fam.v, fam.f
+		levels := []string{"base", "temporal", "environmental"}
+		short := map[string]string{"base": "base", "temporal": "temporal", "environmental": "env"}
+		var cumNames, cumVals []string
+		for _, lv := range levels {
+			var names, vals []string
+			for _, m := range f.Metrics {
+				if m.Level != lv {
+					continue
+				}
+				names = append(names, fmt.Sprintf("(= s %s)", smtStringLit(m.Name)))
+				vals = append(vals, fmt.Sprintf("(and (= (nm t) %s) (not (= (parse_%s_%s (vl t)) %d)))", smtStringLit(m.Name), v, m.Name, m.UnknownN))
+			}
+			fmt.Fprintf(&sb, "(define-fun isname_%s_%s ((s String)) Bool (or %s))\n", v, short[lv], strings.Join(names, " "))
+			cumNames = append(cumNames, names...)
+			cumVals = append(cumVals, vals...)
+			// "upto": names / valid tokens of the decoder of this level (its own and the lower levels)
+			fmt.Fprintf(&sb, "(define-fun isname_%s_upto_%s ((s String)) Bool (or %s))\n", v, short[lv], strings.Join(cumNames, " "))
+			fmt.Fprintf(&sb, "(define-fun tokval_%s_upto_%s ((t String)) Bool (or %s))\n", v, short[lv], strings.Join(cumVals, " "))
+		}
+		if v == "v3" {
+			for _, lv := range levels {
+				var ex []string
+				for _, m := range f.Metrics {
+					if m.Level == "base" {
+						ex = append(ex, fmt.Sprintf("(exists ((j Int)) (and (<= 1 j) (< j (ntok v)) (= (nm (tok v j)) %s)))", smtStringLit(m.Name)))
+					}
+				}
+				fmt.Fprintf(&sb, `(define-fun wf_v3_%s ((v String)) Bool
+  (and (prefix_ok_v3 (tok v 0))
+       (forall ((j Int)) (=> (and (<= 1 j) (< j (ntok v))) (and (shape (tok v j)) (tokval_v3_upto_%s (tok v j)))))
+       (forall ((j Int) (k Int)) (=> (and (<= 1 j) (< j k) (< k (ntok v))) (not (= (nm (tok v j)) (nm (tok v k))))))
+       %s))
+`, short[lv], short[lv], strings.Join(ex, "\n       "))
+			}
+		}
+	}
+	return sb.String()
 }
 
 // buildPrelude assembles the full prelude text and registers its signatures.
